@@ -187,9 +187,10 @@ Proof. split; vm_compute; reflexivity. Qed.
 Example C19_ex_str_replaced :
   assign true 0 None (DPtr (VStr "old")) (SVal (VInt KInt 42)) = Done true (DPtr (VStr "42")) OFresh None.
 Proof. vm_compute. reflexivity. Qed.
-(* a bytes destination with room is overwritten in place *)
+(* a bytes destination with room is NOT overwritten in place (its array may be shared with whoever supplied the old content:
+   bytes are assigned by reference); fix 53615f7, before which the owner here was OOld *)
 Example C19_ex_bytes_in_place :
-  assign true 3 None (DPtr (VBytes "old")) (SVal (VInt KUint8 42)) = Done true (DPtr (VBytes "42")) OOld None.
+  assign true 3 None (DPtr (VBytes "old")) (SVal (VInt KUint8 42)) = Done true (DPtr (VBytes "42")) OFresh None.
 Proof. vm_compute. reflexivity. Qed.
 (* same family wraps, another family is refused *)
 Example C19_ex_wrap :
